@@ -82,7 +82,7 @@ def derive(rng: random.Random, A: dict, mode: str):
                 fits = [d for d, (lo, hi_) in c03.SMALL_INT.items() if all(lo <= v <= hi_ for v in vals)]
                 out.append(rng.choice(["int64", "int64"] + fits))
             elif cl == "float":
-                out.append("float32" if all(c03._f32_exact(float(v)) for v in vals) and rng.random() < 0.3 else "float64")
+                out.append("float32" if all(float(v) == v and c03._f32_exact(float(v)) for v in vals) and rng.random() < 0.3 else "float64")
             else:
                 out.append(cl[2:])
         return out
